@@ -32,7 +32,7 @@ type CallCase struct {
 var callParams = []string{"pa", "pb", "pc"}
 
 // names that must not be visible after the calls/cases that created them
-var callProbeNames = []string{"pa", "pb", "pc", "la", "li", "lx", "mq", "ma", "loc1", "loc2", "ga", "ca", "va", "rn", "en", "on", "na", "ra", "loc3", "da", "dx", "dq", "oa", "qa", "ma1", "ma2", "mo", "mb1", "mb2", "qb", "loc4", "loc5", "wn", "wx", "lq", "lm1", "lother", "lb", "lbo", "ml1", "mlo", "wa", "t1", "t2", "t3", "fa", "fl", "fr", "ns", "nc", "sa", "acc", "sacc", "lacc", "fo", "fs", "fn"}
+var callProbeNames = []string{"pa", "pb", "pc", "la", "li", "lx", "mq", "ma", "loc1", "loc2", "ga", "ca", "va", "rn", "en", "on", "na", "ra", "loc3", "da", "dx", "dq", "oa", "qa", "ma1", "ma2", "mo", "mb1", "mb2", "qb", "loc4", "loc5", "wn", "wx", "lq", "lm1", "lother", "lb", "lbo", "ml1", "mlo", "wa", "t1", "t2", "t3", "fa", "fl", "fr", "ns", "nc", "sa", "acc", "sacc", "lacc", "fo", "fs", "fn", "mz1", "mz2", "mz3", "mz4", "show2"}
 
 func (c *CallCase) program() string {
 	var sb strings.Builder
@@ -88,6 +88,8 @@ function fresh(fa) { if (fl is unknown) { fr = "fresh" } else { fr = "stale" }
  return fr }
 function nextstr(ns) { for (nc in "xyz") { if (nc == "y") { NX = ns
  next } } }
+function usefn(fid, clobber, show2) { clobber = [fid]
+ return [fid, clobber, show2] }
 function mkfresh() { fa = []
  fa.push(1)
  fo = {}
@@ -146,6 +148,8 @@ $.op == "fresh2" { print step, fresh($.a[0]), fresh($.a[1]) }
 $.op == "nextstr" { print step, "beforestr"
  nextstr($.a[0])
  print step, "NOT REACHED" }
+$.op == "mstale" { print step, match ($.a[0]) { [G, 1] => "first", [NX, "two"] => "second", [mz1, mz2] => [mz1, G, NX], mz4 => [G, NX] } }
+$.op == "pfname" { print step, usefn($.a[0]), clobber(1), fid(), show2 is unknown }
 $.op == "argorder" { print step, fid(G, setg($.a[0]), G), G }
 $.op == "argincr" { cnt = 5
  print step, fid(cnt, cnt++, cnt), cnt }
@@ -360,6 +364,30 @@ func (c *CallCase) model() (lines []string, exited bool, ok bool) {
 			emit("beforestr")
 			NX = arg(0)
 			skipEOR = true
+		case "mstale":
+			// names bound by a case that went on to fail must not leak into the case that matches:
+			// G and NX in the bodies are the globals
+			a := arg(0)
+			isArr2 := a.Kind == 'a' && len(a.Arr) == 2
+			switch {
+			case isArr2 && a.Arr[1].Kind == 'n' && a.Arr[1].Num == 1:
+				emit("first")
+			case isArr2 && a.Arr[1].Kind == 's' && a.Arr[1].Str == "two":
+				emit("second")
+			case isArr2 && a.Arr[1].Kind != 'a' && a.Arr[1].Kind != 'o':
+				emit(p(arr(a.Arr[0], G, NX)))
+			case a.Kind != 'a':
+				emit(p(arr(G, NX)))
+			default:
+				return nil, false, false
+			}
+		case "pfname":
+			// parameters, loop variables named like declared functions; the functions stay callable
+			nulls := make([]*JVal, c.Arity)
+			for i := range nulls {
+				nulls[i] = jNull
+			}
+			emit(p(arr(arg(0), arr(arg(0)), jNull)) + " 99 " + p(arr(nulls...)) + " true")
 		case "argorder":
 			// arguments are bound to the values they had when each was evaluated, left to right
 			old := G
@@ -655,8 +683,8 @@ func genCallArg(t *Tape) string {
 }
 
 func genCallOp(t *Tape) CallOp {
-	ops := []string{"id0", "id1", "id2", "id3", "id4", "loopret", "mklocal", "setg", "readg", "clobber", "viaother", "rec", "mutual", "donext", "donext2", "noret", "outer", "mexpr", "mblock", "pat", "proc", "walk", "mlit", "litmatch", "litblock", "awkloc0", "awkloc1", "awkloc2", "fresh", "fresh2", "nextstr", "shadow", "clobmiss", "nextexpr", "argorder", "argincr", "mlet", "mkfresh"}
-	w := []int{1, 2, 2, 2, 2, 3, 3, 2, 2, 3, 2, 2, 1, 3, 2, 2, 2, 4, 3, 2, 3, 2, 3, 3, 2, 1, 2, 2, 4, 2, 2, 3, 3, 2, 3, 2, 4, 3}
+	ops := []string{"id0", "id1", "id2", "id3", "id4", "loopret", "mklocal", "setg", "readg", "clobber", "viaother", "rec", "mutual", "donext", "donext2", "noret", "outer", "mexpr", "mblock", "pat", "proc", "walk", "mlit", "litmatch", "litblock", "awkloc0", "awkloc1", "awkloc2", "fresh", "fresh2", "nextstr", "shadow", "clobmiss", "nextexpr", "argorder", "argincr", "mlet", "mkfresh", "mstale", "pfname"}
+	w := []int{1, 2, 2, 2, 2, 3, 3, 2, 2, 3, 2, 2, 1, 3, 2, 2, 2, 4, 3, 2, 3, 2, 3, 3, 2, 1, 2, 2, 4, 2, 2, 3, 3, 2, 3, 2, 4, 3, 4, 3}
 	op := ops[t.Weighted(w...)]
 	var args []string
 	switch op {
@@ -671,6 +699,8 @@ func genCallOp(t *Tape) CallOp {
 	case "mlit", "litmatch", "litblock":
 		// subjects never put a container against a scalar literal (== on containers is an error)
 		args = []string{[]string{"[]", "[0,0]", "[1,[2,3]]", "[5,9]", "[0,1]", "[7]", "[1,2,3]", "7", `"s"`, "null", "[3,9]"}[t.Draw(11)]}
+	case "mstale":
+		args = []string{[]string{"[7,1]", "[7,2]", `[7,"two"]`, `["q","r"]`, "3", `"s"`, "null", "[0,1]", "[4,null]"}[t.Draw(9)]}
 	case "clobmiss":
 		args = []string{[]string{"null", `{"k":1}`, "{}"}[t.Draw(3)]}
 		for k := t.Draw(4); k > 0; k-- {
